@@ -6,7 +6,9 @@ random large inputs, (2) independent oracle (harness/numth_oracle.py) on the rea
 """
 import math
 import os
+import signal
 import sys
+import threading
 import time
 from concurrent.futures import ThreadPoolExecutor
 
@@ -99,11 +101,25 @@ FUNCS = {
 DRV_OP = {'factor_prime_power': 'fpp'}
 
 
+CALL_TIMEOUT = 60.0   # seconds; a call of the code under test that runs longer is reported as TimeoutError
+
+
+def _on_alarm(_signum, _frame):
+    raise TimeoutError('call of the code under test did not terminate in time')
+
+
 def call(fn, args):
+    timed = threading.current_thread() is threading.main_thread()
+    if timed:
+        signal.signal(signal.SIGALRM, _on_alarm)
+        signal.setitimer(signal.ITIMER_REAL, CALL_TIMEOUT)
     try:
         v = FUNCS[fn](*args)
     except Exception as exc:  # error behaviour is part of the interface
         return ('err', type(exc).__name__)
+    finally:
+        if timed:
+            signal.setitimer(signal.ITIMER_REAL, 0)
     if isinstance(v, tuple):
         v = tuple(v)
     return ('ok', v)
@@ -429,13 +445,23 @@ def evaluate(ctx, cases, what, corr=True):
     if corr:   # the Lean driver processes run while the real code and the oracle are evaluated below
         ex = ThreadPoolExecutor(1)
         fut = ex.submit(run_driver, lines)
-    nviol = 0
+    nviol = ntimeouts = 0
     for i, (fn, args, hint) in enumerate(cases):
         out = outcomes[i]
         if out is None:
             out = outcomes[i] = call(fn, args)
         ctx.case((fn, args))
         ctx.count(fn + ('/raises' if out[0] == 'err' else ''))
+        if out == ('err', 'TimeoutError'):
+            ntimeouts += 1
+            ctx.violation(f'{fn}{args} did not return within {CALL_TIMEOUT:.0f}s',
+                          {'function': fn, 'args': list(args), 'observed': 'TimeoutError', 'expected': 'a result'})
+            if ntimeouts >= 2:       # do not sit through thousands of hanging calls
+                ctx.note('evaluation aborted after 2 non-terminating calls of the code under test')
+                if ex is not None:
+                    ex.shutdown(wait=False, cancel_futures=True)
+                return outcomes
+            continue
         if hint == 'skip':
             continue
         msg = orc.check(fn, args, out, hint)
@@ -464,7 +490,8 @@ def run(ctx):
     ctx.note(f'cases: {nex} exhaustive + {len(rnd)} random large (generated in {time.time()-t0:.1f}s)')
     outs = evaluate(ctx, cases, 'exhaustive+random')
     for (fn, args, _h), o in list(zip(cases[nex:], outs[nex:]))[:: max(1, len(rnd) // 4)]:
-        ctx.sample({'function': fn, 'args': [str(a) for a in args], 'result': canon(o)})
+        if o is not None:
+            ctx.sample({'function': fn, 'args': [str(a) for a in args], 'result': canon(o)})
     ctx.note(f'run: {time.time()-t0:.1f}s')
     ctx.note('observation (not a violation): ratrec(x, y, None, 0) raises ZeroDivisionError rather than ValueError')
 
